@@ -450,7 +450,10 @@ def run(ctx: Any) -> None:
              + (" x {plain}" if ctx.tier == "thorough" or ctx.deep else "; plain connections sampled for length 4"))
 
 
-def replay(ctx: Any, case: dict[str, Any]) -> None:
+def replay(ctx: Any, case: dict[str, Any] | None) -> None:
+    if not case:  # a `no-longer-checks` file carries no single case: re-run the hand-written corpus
+        run_cases(ctx, CORPUS)
+        return
     if case.get("kind") == "accept":
         phase_accept(ctx)
         return
